@@ -157,7 +157,16 @@ Record cb (St : Type) : Type := CB {
 Arguments CB {St}. Arguments cb_in {St}. Arguments cb_call {St}. Arguments cb_out {St}.
 
 (* ---- driver + Irc core state ---- *)
+(* the entries of irc.state.supported (ISUPPORT, numeric 005) that the per-message path reads BEFORE dispatch:
+   Irc._tagMsg -> _setMsgChannel -> stripChannelPrefix / isChannel.  None = key absent. *)
+Record isup : Type := IS {
+  i_chantypes : option (option str);     (* Some None: the key is there with the value None (token without '=') *)
+  i_chanlen_none : option bool;          (* Some true: supported['channellen'] is None; Some false: an int *)
+  i_statusmsg : option (option str) }.
+Definition isup0 : isup := IS None None None.
+
 Record dstate : Type := DS {
+  sup : isup;                (* irc.state.supported, the three entries above *)
   connected : bool;          (* SocketDriver.connected *)
   outq : list str;           (* Irc.fastqueue, PONG payloads only *)
   outbuf : list str;         (* SocketDriver.outbuffer (bytes): PONG payloads encoded but not yet written *)
@@ -165,11 +174,93 @@ Record dstate : Type := DS {
   nfed : N;                  (* number of feedMsg calls so far *)
   fedl : list str }.         (* the lines given to feedMsg, newest first *)
 
-Definition set_conn (c : bool) (d : dstate) := DS c (outq d) (outbuf d) (sent d) (nfed d) (fedl d).
-Definition set_outq (q : list str) (d : dstate) := DS (connected d) q (outbuf d) (sent d) (nfed d) (fedl d).
-Definition set_outbuf (q : list str) (d : dstate) := DS (connected d) (outq d) q (sent d) (nfed d) (fedl d).
-Definition set_sent (q : list str) (d : dstate) := DS (connected d) (outq d) (outbuf d) q (nfed d) (fedl d).
-Definition note_fed (l : str) (d : dstate) := DS (connected d) (outq d) (outbuf d) (sent d) (nfed d + 1) (l :: fedl d).
+Definition set_conn (c : bool) (d : dstate) := DS (sup d) c (outq d) (outbuf d) (sent d) (nfed d) (fedl d).
+Definition set_outq (q : list str) (d : dstate) := DS (sup d) (connected d) q (outbuf d) (sent d) (nfed d) (fedl d).
+Definition set_outbuf (q : list str) (d : dstate) := DS (sup d) (connected d) (outq d) q (sent d) (nfed d) (fedl d).
+Definition set_sent (q : list str) (d : dstate) := DS (sup d) (connected d) (outq d) (outbuf d) q (nfed d) (fedl d).
+Definition note_fed (l : str) (d : dstate) := DS (sup d) (connected d) (outq d) (outbuf d) (sent d) (nfed d + 1) (l :: fedl d).
+
+Definition set_sup (i : isup) (d : dstate) := DS i (connected d) (outq d) (outbuf d) (sent d) (nfed d) (fedl d).
+
+(* ---- ISUPPORT: IrcState.do005 ---- *)
+Definition s_005 : str := [48; 48; 53].
+Definition s_chantypes : str := [99; 104; 97; 110; 116; 121; 112; 101; 115].
+Definition s_channellen : str := [99; 104; 97; 110; 110; 101; 108; 108; 101; 110].
+Definition s_statusmsg : str := [115; 116; 97; 116; 117; 115; 109; 115; 103].
+Definition s_NOTICE : str := [78; 79; 84; 73; 67; 69].
+Definition s_PRIVMSG : str := [80; 82; 73; 86; 77; 83; 71].
+Definition default_chantypes : str := [35; 38; 33].        (* ircutils.isChannel(chantypes='#&!') *)
+(* InsensitivePreservingDict key: s.lower(); only ASCII matters for the three names (checked by the extractor) *)
+Definition lower_ascii (s : str) : str := map (fun c => if N.leb 65 c && N.leb c 90 then c + 32 else c) s.
+
+(* int(v) succeeds: whitespace stripped, optional sign, decimal digits (any Unicode Nd) with single '_' between *)
+Fixpoint digits_us (s : str) (prev_digit : bool) : bool :=
+  match s with
+  | [] => prev_digit
+  | c :: s' =>
+      if mem c gen.T07.FORMAT_DIGITS then digits_us s' true
+      else if N.eqb c 95 then prev_digit && digits_us s' false
+      else false
+  end.
+Definition int_ok (v : str) : bool :=
+  let s := strip gen.T07.PY_WS v in
+  let s' := match s with c :: r => if N.eqb c 43 || N.eqb c 45 then r else s | [] => [] end in
+  match s' with c :: _ => mem c gen.T07.FORMAT_DIGITS && digits_us s' false | [] => false end.
+
+(* one token of `for arg in msg.args[1:-1]` *)
+Definition apply_token (i : isup) (arg : str) : isup :=
+  match split1 [61] arg with
+  | Some (name, value) =>
+      let k := lower_ascii name in
+      if seq_eqb k s_chantypes then IS (Some (Some value)) (i_chanlen_none i) (i_statusmsg i)
+      else if seq_eqb k s_channellen then
+        (* converter int: `except Exception: log.exception(...)` leaves the entry as it was *)
+        if int_ok value then IS (i_chantypes i) (Some false) (i_statusmsg i) else i
+      else if seq_eqb k s_statusmsg then IS (i_chantypes i) (i_chanlen_none i) (Some (Some value))
+      else i
+  | None =>
+      (* self.supported[arg] = None *)
+      let k := lower_ascii arg in
+      if seq_eqb k s_chantypes then IS (Some None) (i_chanlen_none i) (i_statusmsg i)
+      else if seq_eqb k s_channellen then IS (i_chantypes i) (Some true) (i_statusmsg i)
+      else if seq_eqb k s_statusmsg then IS (i_chantypes i) (i_chanlen_none i) (Some None)
+      else i
+  end.
+Definition apply_005 (args : list str) (i : isup) : isup := fold_left apply_token (removelast (tl args)) i.
+
+(* Irc.isChannel(s) raises TypeError: ircutils.isChannel evaluates `s[0] in chantypes` / `len(s) <= channellen`
+   with None.  gen.T07.ISCHANNEL_NONE_SAFE: Irc.isChannel passes an entry on only when it is not None. *)
+Definition is_channel_raises (i : isup) (s : str) : bool :=
+  if gen.T07.ISCHANNEL_NONE_SAFE then false
+  else
+    match s with
+    | [] => false
+    | c :: _ =>
+        if mem 44 s || mem 7 s then false
+        else
+          match i_chantypes i with
+          | Some None => true
+          | ct =>
+              let types := match ct with Some (Some v) => v | _ => default_chantypes end in
+              mem c types && match i_chanlen_none i with Some true => true | _ => false end
+          end
+    end.
+(* _setMsgChannel(msg) raises *)
+Definition tag_raises (i : isup) (command : str) (args : list str) : bool :=
+  match args with
+  | [] => false
+  | a :: _ =>
+      let ch :=
+        if seq_eqb command s_NOTICE || seq_eqb command s_PRIVMSG then
+          (* stripChannelPrefix: channel.lstrip(supported.get('statusmsg', '')) ; lstrip(None) strips whitespace *)
+          match i_statusmsg i with
+          | None => a
+          | Some None => lstrip gen.T07.PY_WS a
+          | Some (Some chars) => lstrip chars a
+          end
+        else a in
+      is_channel_raises i ch
+  end.
 
 (* driver.reconnect() as far as this model goes: the connection is dropped *)
 Definition apply_reconn (r : bool) (d : dstate) : dstate := if r then set_conn false d else d.
@@ -247,9 +338,32 @@ Fixpoint run_calls (n : N) (m : msg) (l : list (cb St)) (p : pstate) : pstate * 
       end
   end.
 
+(* Irc.feedMsg from `self.state.addMsg(self, msg)` on *)
+Definition feed_rest (n : N) (m : msg) (d : dstate) (s : St) : pstate * option xc :=
+  let r := addmsg n m s in
+  let d1 := apply_reconn (h_reconn r) d in
+  (* IrcState.addMsg dispatches to do005, which rewrites state.supported (if addMsg got that far) *)
+  let d2 := match h_exc r with
+            | None => if seq_eqb (m_command m) s_005 then set_sup (apply_005 (m_args m) (sup d1)) d1 else d1
+            | Some _ => d1
+            end in
+  let p2 := (d2, h_st r) in
+  match through_try_at 3 gen.T07.FEED_ADDMSG_CATCHES (through_fw (fw_state s_addMsg) (h_exc r)) with
+  | Some e => (p2, Some e)
+  | None =>
+      match run_infilters n m cbs p2 with
+      | (p3, Some e, _) => (p3, Some e)
+      | (p3, None, false) => (p3, None)
+      | (p3, None, true) => run_calls n m cbs p3
+      end
+  end.
+
 (* the body of Irc.feedMsg *)
 Definition feed_body (n : N) (m : msg) (p : pstate) : pstate * option xc :=
   let '(d, s) := p in
+  (* self._tagMsg(msg) -> _setMsgChannel -> self.isChannel(channel) *)
+  if tag_raises (sup d) (m_command m) (m_args m) then (p, Some (XE TypeError))
+  else
   (* `if msg.command in self._nickSetters: if msg.args[0] != self.nick` *)
   if existsb (seq_eqb (m_command m)) gen.T07.NICK_SETTERS && is_nil (m_args m)
   then (p, Some (XE IndexError))
@@ -268,18 +382,7 @@ Definition feed_body (n : N) (m : msg) (p : pstate) : pstate * option xc :=
         let r := dispatch n m s in ((apply_reconn (h_reconn r) d, h_st r), h_exc r) in
     match x1 with
     | Some e => (p1, Some e)
-    | None =>
-        let r := addmsg n m (snd p1) in
-        let p2 := (apply_reconn (h_reconn r) (fst p1), h_st r) in
-        match through_try_at 3 gen.T07.FEED_ADDMSG_CATCHES (through_fw (fw_state s_addMsg) (h_exc r)) with
-        | Some e => (p2, Some e)
-        | None =>
-            match run_infilters n m cbs p2 with
-            | (p3, Some e, _) => (p3, Some e)
-            | (p3, None, false) => (p3, None)
-            | (p3, None, true) => run_calls n m cbs p3
-            end
-        end
+    | None => feed_rest n m (fst p1) (snd p1)
     end.
 
 (* Irc.feedMsg = firewall(body) *)
@@ -333,6 +436,14 @@ Fixpoint take_all (fuel : nat) (acc : list str) (p : pstate) : pstate * list str
       | [] => (p, acc, None)                           (* takeMsg returns None *)
       | a :: q =>
           let p0 := (set_outq q (fst p), snd p) in     (* fastqueue.dequeue() *)
+          (* `for callback in reversed(self.callbacks): self._setMsgChannel(msg); msg = callback.outFilter(...)`:
+             with at least one callback the PONG is tagged first; a TypeError there is under the takeMsg firewall *)
+          if negb (is_nil cbs) && tag_raises (sup (fst p)) [80; 79; 78; 71] [a] then
+            match through_fw (fw_irc s_takeMsg) (Some (XE TypeError)) with
+            | None => (p0, acc, None)
+            | Some e' => (p0, acc, Some e')
+            end
+          else
           let '(p1, x) := run_outfilters a (rev cbs) p0 in
           match x with
           | None =>
@@ -483,7 +594,7 @@ End Flow.
 
 Arguments MS {St}. Arguments m_buf {St}. Arguments m_p {St}. Arguments alive {St}. Arguments crashed {St}. Arguments escapes {St}.
 
-Definition ds0 : dstate := DS true [] [] [] 0 [].
+Definition ds0 : dstate := DS isup0 true [] [] [] 0 [].
 Definition init {St} (s : St) : mstate St := MS [] (ds0, s) true false [].
 
 (* ================= concrete instance for the extracted binary ================= *)
@@ -575,9 +686,11 @@ Definition run (v : value) : value :=
                           (c_cbs 0 (gL (nth_v 5 pl))) rvs (init []) in
       let d := fst (m_p ms) in
       L [vB (alive ms); vB (crashed ms); L (map vX (rev (escapes ms))); vLS (sent d);
-         L (map (fun e => L (map vN e)) (rev (snd (m_p ms)))); vLS (rev (fedl d)); vB (connected d); vS (m_buf ms); vLS (outbuf d)]
+         L (map (fun e => L (map vN e)) (rev (snd (m_p ms)))); vLS (rev (fedl d)); vB (connected d); vS (m_buf ms); vLS (outbuf d);
+         L [vO (vO vS) (i_chantypes (sup d)); vO vB (i_chanlen_none (sup d)); vO (vO vS) (i_statusmsg (sup d))]]
   | 1 => vB (dom vt dec rvs [])
   | 2 => L (map (fun e => I (exn_code e)) (parse_excs vt dec rvs []))
   | 3 => vN (consuming (gS pl))
+  | 4 => vB (int_ok (gS pl))
   | _ => L []
   end.
